@@ -478,9 +478,13 @@ func linTier(prop string) func(t *testing.T, w *explore.Worker, idx *int) {
 			}
 			unit := "lin;scn=" + scn.Name
 			w.BeginUnit(i, unit)
+			// journalled: a crash while the sequential orders run is attributed to this case
+			seqCase := explore.Case{Prop: prop, Unit: unit, H: []string{"sequential"}}
+			w.Journal(seqCase)
 			allowed, v := linAllowed(t, &scn, prop == "C05")
+			w.EndCase()
 			if v != "" {
-				w.Violate(explore.Case{Prop: prop, Unit: unit, H: []string{"sequential"}}, v)
+				w.Violate(seqCase, v)
 				continue
 			}
 			d := &explore.DFS{W: w, Unit: unit, Preempt: pb, Observe: 0, DetCheck: 2, Prune: true, MaxViol: 5,
